@@ -1238,6 +1238,11 @@ fn generate_variant_map_with_acronyms(
                 );
             }
 
+            // see generate_variant_map_internal: no empty keys
+            if search_variant.is_empty() {
+                continue;
+            }
+
             map.insert(search_variant, Some(*style), replace_variant);
         }
     }
